@@ -171,3 +171,70 @@ Definition sample_vfork : list top :=
    TOp (Call 2 80 19 89); TOp (Ret 80); TOp (Ret 90); TOp (Ret 100)].
 Example sample_vfork_legal : legal_progT sample_vfork = true.
 Proof. vm_compute. reflexivity. Qed.
+
+(* ================================================================ vfork with unrecorded entries (Model Part 1c) *)
+Lemma vchild_below : forall ops floor t t', floor <= v_idx t -> vchild floor t ops = Some t' ->
+  floor <= v_idx t' /\ forall i, i < floor -> v_arr t' i = v_arr t i.
+Proof.
+  induction ops as [|o ops IH]; intros floor t t' Hfl H; cbn [vchild] in H.
+  - inversion H; subst. split; [exact Hfl|reflexivity].
+  - destruct o as [e|].
+    + assert (Hfl' : floor <= v_idx (vpush t e)) by (unfold vpush; cbn; lia).
+      destruct (IH _ _ _ Hfl' H) as [A B]. split; [exact A|].
+      intros i Hi. rewrite (B i Hi). unfold vpush. cbn.
+      destruct (i =? v_idx t) eqn:E; [apply N.eqb_eq in E; lia|reflexivity].
+    + destruct (floor <? v_idx t) eqn:E; [|discriminate]. apply N.ltb_lt in E.
+      assert (Hfl' : floor <= v_idx (vpop t)) by (unfold vpop; cbn; lia).
+      destruct (IH _ _ _ Hfl' H) as [A B]. split; [exact A|].
+      intros i Hi. rewrite (B i Hi). reflexivity.
+Qed.
+
+(* For EVERY shadow stack of the calling thread - any number of entries, any mix of recorded and unrecorded
+   ones, record_idx whatever it is -, every vfork entry (recorded or not) and everything the child does on the
+   shared array, the first hook the calling thread runs in the parent puts back exactly the state it had when
+   it entered vfork: idx, record_idx and every entry up to and including vfork's own. *)
+Theorem vfork_restore_exact : forall pid cpid thr t e ops t' sv',
+  0 < pid -> cpid <> pid ->
+  vsection vrestore pid cpid thr t e ops = Some (t', sv') ->
+  v_idx t' = v_idx (vpush t e) /\ v_ridx t' = v_ridx (vpush t e) /\
+  (forall i, i < v_idx (vpush t e) -> v_arr t' i = v_arr (vpush t e) i) /\ sv' = vsaved0.
+Proof.
+  intros pid cpid thr t e ops t' sv' Hpid Hc H. unfold vsection, vprepare in H.
+  assert (Ec : (cpid =? pid) = false) by (apply N.eqb_neq; exact Hc).
+  unfold vrestore at 1 in H. cbn [s_pid s_thr] in H. rewrite Ec, Bool.andb_false_r in H.
+  destruct (vchild (v_idx t) (vpop (vpush t e)) ops) as [t3|] eqn:Ech; [|discriminate].
+  assert (Hfl : v_idx t <= v_idx (vpop (vpush t e))) by (unfold vpop, vpush; cbn; lia).
+  destruct (vchild_below _ _ _ _ Hfl Ech) as [_ Hbelow].
+  unfold vrestore in H. cbn [s_pid s_thr s_idx s_ridx s_ent] in H.
+  assert (E1 : (0 <? pid) = true) by (apply N.ltb_lt; exact Hpid).
+  rewrite E1, !N.eqb_refl in H. cbn [andb] in H. inversion H; subst t' sv'. clear H.
+  cbn [v_idx v_ridx v_arr]. repeat split.
+  intros i Hi. unfold vpush in *. cbn [v_idx v_arr] in *.
+  replace (v_idx t + 1 - 1) with (v_idx t) by lia.
+  destruct (i =? v_idx t) eqn:E; [reflexivity|]. apply N.eqb_neq in E.
+  assert (Hlt : i < v_idx t) by lia. rewrite (Hbelow i Hlt). unfold vpop. cbn. rewrite (proj2 (N.eqb_neq _ _) E). reflexivity.
+Qed.
+
+(* a hook of ANOTHER thread of the parent process, run while the child runs, leaves that thread's shadow stack
+   and the saved state alone (fix 7e6b323) ... *)
+Theorem vfork_other_thread_untouched : forall pid thr t sv, thr <> s_thr sv -> vrestore pid thr t sv = (t, sv).
+Proof.
+  intros pid thr t sv H. unfold vrestore. rewrite (proj2 (N.eqb_neq _ _) H), Bool.andb_false_r. reflexivity.
+Qed.
+(* ... which the code as found did not: thread 2 (idx 1) takes thread 1's saved index 3 *)
+Example vfork_legacy_other_thread_refuted :
+  let sv := {| s_pid := 7; s_thr := 1; s_idx := 3; s_ridx := 3; s_ent := {| v_id := 9; v_norec := false |} |} in
+  let t2 := vpush vth0 {| v_id := 5; v_norec := false |} in
+  vshape (fst (vrestore_legacy 7 2 t2 sv)) = (3, 3, [false; false; false]) /\ vshape t2 = (1, 1, [false]) /\
+  vshape (fst (vrestore 7 2 t2 sv)) = (1, 1, [false]).
+Proof. vm_compute. auto. Qed.
+
+(* non-vacuity, and seeded change C11-9: main and spawn recorded, vfork itself rejected by a filter (-N vfork);
+   the child makes a call and execs *)
+Example vfork_unrecorded_witness :
+  let t := vpush (vpush vth0 {| v_id := 1; v_norec := false |}) {| v_id := 2; v_norec := false |} in
+  let e := {| v_id := 3; v_norec := true |} in
+  let ops := [VPush {| v_id := 4; v_norec := false |}; VPush {| v_id := 5; v_norec := true |}] in
+  option_map (fun p => vshape (fst p)) (vsection vrestore 7 8 1 t e ops) = Some (3, 2, [false; false; true]) /\
+  option_map (fun p => vshape (fst p)) (vsection vrestore_seeded 7 8 1 t e ops) = Some (2, 2, [false; true]).
+Proof. vm_compute. auto. Qed.
